@@ -63,6 +63,9 @@ pub async fn run(args: &Args, rep: &mut Reporter) {
             w.create_folder = 4;
             w.update = 24;
             w.compact = 1;
+            // on sqlite a copied folder takes the rows of its source (open finding under C02),
+            // so the index question is only asked on the file system backend
+            w.copy_folder = if config.backend.name() == "fs" { 3 } else { 0 };
             w.change_folder_pw = 1;
             let mut s = match Session::start(&pristine, &hdir, rng.fork(h as u64), w).await {
                 Ok(s) => s,
